@@ -34,6 +34,7 @@ import (
 	"google.golang.org/protobuf/proto"
 	"google.golang.org/protobuf/testing/protocmp"
 
+	aftpb "github.com/openconfig/gribi/v1/proto/gribi_aft"
 	spb "github.com/openconfig/gribi/v1/proto/service"
 	gspb "google.golang.org/genproto/googleapis/rpc/status"
 )
@@ -335,6 +336,8 @@ func GetResponseHasEntries(t testing.TB, getres *spb.GetResponse, wants ...fluen
 
 	type cache struct {
 		ipv4 map[string]*spb.AFTEntry
+		ipv6 map[string]*spb.AFTEntry
+		mpls map[uint64]*spb.AFTEntry
 		nhg  map[uint64]*spb.AFTEntry
 		nh   map[uint64]*spb.AFTEntry
 	}
@@ -345,6 +348,8 @@ func GetResponseHasEntries(t testing.TB, getres *spb.GetResponse, wants ...fluen
 		if _, ok := netinsts[r.NetworkInstance]; !ok {
 			netinsts[r.NetworkInstance] = &cache{
 				ipv4: make(map[string]*spb.AFTEntry),
+				ipv6: make(map[string]*spb.AFTEntry),
+				mpls: make(map[uint64]*spb.AFTEntry),
 				nhg:  make(map[uint64]*spb.AFTEntry),
 				nh:   make(map[uint64]*spb.AFTEntry),
 			}
@@ -363,6 +368,14 @@ func GetResponseHasEntries(t testing.TB, getres *spb.GetResponse, wants ...fluen
 		case *spb.AFTEntry_Ipv4:
 			if pfx := v.Ipv4.GetPrefix(); pfx != "" {
 				ni.ipv4[pfx] = r
+			}
+		case *spb.AFTEntry_Ipv6:
+			if pfx := v.Ipv6.GetPrefix(); pfx != "" {
+				ni.ipv6[pfx] = r
+			}
+		case *spb.AFTEntry_Mpls:
+			if _, ok := v.Mpls.GetLabel().(*aftpb.Afts_LabelEntryKey_LabelUint64); ok {
+				ni.mpls[v.Mpls.GetLabelUint64()] = r
 			}
 		}
 	}
@@ -399,6 +412,16 @@ func GetResponseHasEntries(t testing.TB, getres *spb.GetResponse, wants ...fluen
 			if _, ok := ni.ipv4[v.Ipv4.GetPrefix()]; !ok {
 				t.Fatalf("did not find entry, did not find ipv4: %s, got: %s\n", v.Ipv4, getres)
 			}
+		case *spb.AFTEntry_Ipv6:
+			if _, ok := ni.ipv6[v.Ipv6.GetPrefix()]; !ok {
+				t.Fatalf("did not find entry, did not find ipv6: %s, got: %s\n", v.Ipv6, getres)
+			}
+		case *spb.AFTEntry_Mpls:
+			if _, ok := ni.mpls[v.Mpls.GetLabelUint64()]; !ok {
+				t.Fatalf("did not find entry, did not find mpls: %s, got: %s\n", v.Mpls, getres)
+			}
+		default:
+			t.Fatalf("cannot check for entry of unhandled type %T", v)
 		}
 	}
 }
